@@ -779,7 +779,7 @@ func (z *Decimal) FMA(x, y, u *Decimal) *Decimal {
 
 	// avoid trashing z if u == z
 	z0 := z
-	if alias(z.mant, u.mant) {
+	if z == u || alias(z.mant, u.mant) {
 		z0 = new(Decimal)
 		z0.mode = z.mode
 		z0.prec = z.prec
